@@ -144,6 +144,9 @@ class Unit:
     def note_future_exception(self, ip, fut, e):
         pass
 
+    def on_future_resolved(self, ip, fut):
+        pass
+
     def model_getattr(self, ip, obj, attr):
         return NotImplemented
 
@@ -290,15 +293,27 @@ class MethodUnit(Unit):
         self.ghost_suspend(ip, what, payload)
         self.assert_inv(ip, f"@suspend[{what}]")
         self.assert_guarantee(ip, f"@suspend[{what}]")
+        self.accumulate(ip)
         self.before = H(ip.st, ip.st.snapshot())
 
     def after_resume(self, ip, what, payload):
         self.resume_assumptions(ip, what, payload)
         self.seg = H(ip.st, ip.st.snapshot())
+        self.ghost_resume(ip, what, payload)
 
     def resume_assumptions(self, ip, what, payload):
         self.assume_state(ip)
-        self.ghost_resume(ip, what, payload)
+
+    # per-call accumulators over the call's own segments -------------------------
+    def segment_deltas(self, seg, now, s, cur):
+        """{name: term}: the change this segment made to some abstract quantity; summed over the
+        segments of the call and handed to on_exit as self.acc"""
+        return {}
+
+    def accumulate(self, ip):
+        now = H(ip.st)
+        for n, t in self.segment_deltas(self.seg, now, self.self_val.t, ip.ctx.cur.t).items():
+            self.acc[n] = self.acc.get(n, 0) + t
 
     # rely / guarantee (two-state) -------------------------------------------
     def guarantee(self, seg, now, s, cur):
@@ -340,6 +355,7 @@ class MethodUnit(Unit):
             for n, t in self.contract.requires(pre, a):
                 st.assume(t)
         self.seg = pre
+        self.acc = {}
         self.on_entry(ip, pre, a)
         if self.is_setter:
             f = ip.find_setter(self.spec.cls, self.method)
@@ -359,8 +375,10 @@ class MethodUnit(Unit):
         kind = "return" if exc is None else f"raise:{exc.pycls.__name__ if exc.pycls else 'sym'}"
         if self.cover_exits:
             ctx.cover(f"{self.qualname}/cover:exit[{kind}]")
-        self.assert_inv(ip, "@exit")
+        if not (self.is_init and exc is not None):  # a constructor that raises leaves no object behind
+            self.assert_inv(ip, "@exit")
         self.assert_guarantee(ip, "@exit")
+        self.accumulate(ip)
         if wset is not None:
             extra = {w for w in wset if w not in self.contract.modifies and w[0] != "$" and not w[1].startswith("$")}
             if extra:
